@@ -54,7 +54,7 @@ KNOWN = {
     ("asset_handlers/bmff_io.rs", "write_c2pa_box", "write"): "not_io",
     ("asset_handlers/bmff_io.rs", "write_xmp_box", "write"): "not_io",
     ("asset_handlers/bmff_io.rs", "write_free_box", "write"): "not_io",
-    ("asset_handlers/riff_io.rs", "write_cai", "write"): "not_io",
+    ("asset_handlers/riff_io.rs", "write_cai_impl", "write"): "not_io",
     ("asset_handlers/riff_io.rs", "embed_reference_to_stream", "write"): "not_io",
 }
 
@@ -179,16 +179,19 @@ STEPS = [("sniff", "container_from_stream"), ("xmp", "XmpInfo::from_source"), ("
          ("objloc", "object_locations_from_stream"), ("hash", "verify_hash_binding")]
 
 
-def step_of(trace):
-    """the step of the SDK in which the failing call happened (from the function names of the backtrace)"""
+def step_of(trace, kind=None):
+    """the step of the SDK that swallowed the failing call (from the function names of its backtrace).
+    build_bmff_tree itself propagates I/O errors since a0a6903a3; what is left in the BMFF walker is the eight-byte peek of
+    meta_box_lacks_fullbox_header (`read_exact(..).is_ok()`), and only its read can be swallowed there (its seeks use `?`)."""
     core = [f for f in trace if not any(w in f for w in FORWARDERS)]
-    for i, f in enumerate(core[:3]):
-        if ("BoxHeaderLite" in f and "read" in f and i + 1 < len(core) and "build_bmff_tree" in core[i + 1]) or "meta_box_lacks_fullbox_header" in f:
-            return "bmff_tree_in_hash" if any("verify_hash_binding" in x for x in trace) else "bmff_tree"
+    if core and "meta_box_lacks_fullbox_header" in core[0] and kind == "read":
+        return "bmff_meta"
     t = " < ".join(trace)
     for name, needle in STEPS:
         if needle in t:
             return name
+    if any("BoxHeaderLite" in f and "read" in f for f in core[:2]) and any("build_bmff_tree" in f for f in core[:3]):
+        return "bmff_tree"          # the repaired class F-IO-BMFFTREE: must not occur any more
     return "other: " + " < ".join(re.sub(r"c2pa::|asset_handlers::", "", f)[:50] for f in core[:4])
 
 
@@ -223,7 +226,7 @@ def gen_cases(ctx):
     cases = []
     reads = READ_FIXTURES[:QUICK_READ] if quick else READ_FIXTURES
     srcs = [s for s in c40.SOURCES if s[2] == 0 or not quick] + ([("sample1.wav", "audio/wav", 1)] if quick else [])
-    nfail = 36 if quick else 400
+    nfail = 28 if quick else 400
     for fx, fmt in reads:
         cases.append({"op": "read", "fixture": fx, "format": fmt})
     for fx, fmt, w in srcs:
@@ -301,7 +304,7 @@ def evaluate(ctx, cases):
                     # symbol resolution of the backtrace failed (seen under heavy machine load): repeat this one run alone
                     retry.append(dict(cc, _retry=True, trace=True))
                     continue
-                step = step_of(f.get("trace") or [])
+                step = step_of(f.get("trace") or [], f["kind"])
                 same = out == base
                 st = state_of(out)
                 thumb_only = (not same) and without_thumbnail(out) == without_thumbnail(base)
